@@ -1,25 +1,33 @@
 // C16: announce receiver shutdown never hangs.
-//   (H) every sequence of <= N operations, each started in its own goroutine
-//       inside a synctest bubble and observed at quiescence as returned(value)
-//       or blocked, compared with a reference model of the receiver;
-//   (S) 2-3 concurrent threads of 1-2 operations each, all interleavings up to
-//       a preemption bound under the cooperative scheduler.
+//
+//	(H) every sequence of <= N operations, each started in its own goroutine
+//	    inside a synctest bubble and observed at quiescence as returned(value)
+//	    or blocked, compared with a reference model of the receiver;
+//	(S) 2-3 concurrent threads of 1-2 operations each, all interleavings up to
+//	    a preemption bound under the cooperative scheduler.
+//
 // The announce package is built with the instrumentation overlay (mutex shim:
 // a goroutine waiting for the mutex is durably blocked, hence observable).
 package c16
 
 import (
+	"bytes"
 	"context"
 	"errors"
 	"fmt"
+	"os"
 	"sort"
 	"strings"
 	"sync"
 	"testing"
 	"testing/synctest"
+	"time"
 
 	"github.com/ipfs/go-cid"
 	"github.com/ipni/go-libipni/announce"
+	"github.com/ipni/go-libipni/announce/message"
+	"github.com/libp2p/go-libp2p"
+	pubsub "github.com/libp2p/go-libp2p-pubsub"
 	"github.com/libp2p/go-libp2p/core/peer"
 
 	"verifharness/fixture"
@@ -455,10 +463,153 @@ func scenarioFor(to threadOps) *sched.Scenario {
 	}
 }
 
+// pubsubScenario: the receiver with a real gossipsub topic on a single libp2p
+// host without transports (as in C09 layer 4), under the scheduler. Thread M
+// publishes one announcement on the topic; the instrumented watcher goroutine
+// of the receiver reads it and takes the receiver's lock; the other threads
+// call Close / UncacheCid / Next / Close again. Whatever the order, every call
+// returns and, once the receiver is closed, the watcher has exited.
+func pubsubScenario(extra []string) *sched.Scenario {
+	name := "pubsub-watcher[publish || Close"
+	for _, x := range extra {
+		name += " || " + x
+	}
+	name += "]"
+	return &sched.Scenario{
+		Name:     name,
+		MaxSteps: 3000,
+		Setup: func(e *sched.Exec) ([]sched.Thread, func()) {
+			self, from := fixture.Key("ed25519", 30), fixture.Key("ed25519", 31)
+			h, err := libp2p.New(libp2p.NoListenAddrs, libp2p.Identity(self.Priv))
+			if err != nil {
+				panic(err)
+			}
+			psCtx, psCancel := context.WithCancel(context.Background())
+			ps, err := pubsub.NewGossipSub(psCtx, h)
+			if err != nil {
+				panic(err)
+			}
+			topic, err := ps.Join("/indexer/ingest/c16")
+			if err != nil {
+				panic(err)
+			}
+			rc, err := announce.NewReceiver(h, "", announce.WithTopic(topic), announce.WithAllowPeer(func(peer.ID) bool { return true }))
+			if err != nil {
+				panic(err)
+			}
+			m := message.Message{Cid: c1}
+			var buf bytes.Buffer
+			if err := m.MarshalCBOR(&buf); err != nil {
+				panic(err)
+			}
+			threads := []sched.Thread{
+				{Name: "M", Fn: func() {
+					e.Log("M call publish")
+					err := topic.Publish(context.Background(), buf.Bytes(), pubsub.WithSecretKeyAndPeerId(from.Priv, from.ID))
+					e.Log("M ret publish err=%v", err != nil)
+				}},
+				{Name: "C", Fn: func() {
+					e.Log("C call Close")
+					err := rc.Close()
+					e.Log("C ret Close err=%v", err)
+				}},
+			}
+			for i, x := range extra {
+				tn := fmt.Sprintf("X%d", i)
+				switch x {
+				case "UncacheCid":
+					threads = append(threads, sched.Thread{Name: tn, Fn: func() {
+						e.Log("%s call UncacheCid", tn)
+						rc.UncacheCid(c1)
+						e.Log("%s ret UncacheCid", tn)
+					}})
+				case "Next":
+					threads = append(threads, sched.Thread{Name: tn, Fn: func() {
+						e.Log("%s call Next", tn)
+						a, err := rc.Next(context.Background())
+						res := "unexpected:" + a.Cid.String() + "/" + a.PeerID.String()
+						switch {
+						case errors.Is(err, announce.ErrClosed):
+							res = "ErrClosed"
+						case err != nil:
+							res = "err:" + err.Error()
+						case a.Cid.Equals(c1) && a.PeerID == from.ID:
+							res = "c1"
+						}
+						e.Log("%s ret Next = %s", tn, res)
+					}})
+				case "Close":
+					threads = append(threads, sched.Thread{Name: tn, Fn: func() {
+						e.Log("%s call Close", tn)
+						err := rc.Close()
+						e.Log("%s ret Close err=%v", tn, err)
+					}})
+				case "Direct":
+					threads = append(threads, sched.Thread{Name: tn, Fn: func() {
+						e.Log("%s call Direct", tn)
+						res := doOp(rc, opDirect2)
+						e.Log("%s ret Direct = %s", tn, res)
+					}})
+				}
+			}
+			return threads, func() {
+				// clean-up must not take the receiver's lock when a thread is stuck
+				// (a goroutine waiting for a mutex is not "durably blocked" for the
+				// bubble: the execution would hang instead of being reported)
+				if len(e.Unfinished) == 0 {
+					rc.Close()
+					topic.Close()
+				}
+				psCancel()
+				h.Close()
+				// gossipsub's background loops see their cancelled context only
+				// when they wake: let virtual time pass
+				time.Sleep(30 * time.Minute)
+			}
+		},
+		Check: func(e *sched.Exec) []sched.Finding {
+			var out []sched.Finding
+			for _, p := range e.Panics {
+				out = append(out, sched.Finding{Sig: "pubsub:panic", Msg: firstLine(p)})
+			}
+			if len(e.Unfinished) > 0 {
+				var l []string
+				for n, at := range e.Unfinished {
+					l = append(l, n+"@"+at)
+				}
+				sort.Strings(l)
+				out = append(out, sched.Finding{Sig: "pubsub:call-never-returns", Msg: fmt.Sprintf("threads %v never finish although Close was among the calls (deadlocked %v)", l, e.Deadlocked)})
+				return out
+			}
+			for _, o := range e.Obs() {
+				if strings.Contains(o, "ret Next = ") && !strings.HasSuffix(o, "= c1") && !strings.HasSuffix(o, "= ErrClosed") {
+					out = append(out, sched.Finding{Sig: "pubsub:wrong-result", Msg: o})
+				}
+				if strings.Contains(o, "ret Direct = ") && !strings.HasSuffix(o, "= nil") && !strings.HasSuffix(o, "= ErrClosed") {
+					out = append(out, sched.Finding{Sig: "pubsub:wrong-result", Msg: o})
+				}
+			}
+			for _, g := range e.Leaked {
+				if strings.Contains(g, "announce.(*Receiver)") {
+					out = append(out, sched.Finding{Sig: "pubsub:watcher-goroutine-left", Msg: "a goroutine of the receiver is still there after Close returned and the host was shut down: " + firstLine(g)})
+					break
+				}
+			}
+			e.Class = "no-Next-thread"
+			for _, o := range e.Obs() {
+				if i := strings.Index(o, "ret Next = "); i >= 0 {
+					e.Class = "Next=" + o[i+len("ret Next = "):]
+				}
+			}
+			return out
+		},
+	}
+}
+
 func TestCheck(t *testing.T) {
 	r := vp.New("C16", "model_checking",
 		"(H) every sequence of <= N operations over {Close, Direct(c1), Direct(c2), Direct(c1) from a denied peer, Next, UncacheCid(c1)}, each operation started in its own goroutine in a synctest bubble and observed at quiescence as returned(value) / blocked, compared after every step with a reference model of the receiver (closed flag, one-slot queue, duplicate set, blocked callers); (S) every set of 2 threads x 1-2 operations and 3 threads x 1 operation containing at least one Close (3 threads x <=2 operations in the thorough tier), all interleavings at the scheduling points of the instrumented announce package up to the preemption bound. states = distinct decision states / sequences; transitions = scheduling steps / operations; traces = executions of the real receiver.",
-		"receiver without pubsub (nil host); sequences in which Go itself may legally choose between two answers (Next after Close with a queued announcement, two Direct calls blocked at once) are skipped in (H) and accepted either way in (S)",
+		"(H) and (S): receiver without pubsub (nil host); (P): the receiver with a gossipsub topic on one transport-less libp2p host, a thread publishing one announcement, so that the watcher goroutine takes part: publish || Close, optionally || UncacheCid / Next / a second Close / Direct; every call returns and no receiver goroutine is left. Sequences in which Go itself may legally choose between two answers (Next after Close with a queued announcement, two Direct calls blocked at once) are skipped in (H) and accepted either way in (S)",
 		"instrumented select statements try their cases in source order (a legal restriction of Go's choice)",
 	)
 	defer func() {
@@ -540,6 +691,30 @@ func TestCheck(t *testing.T) {
 	if i, _ := r.Shard(); i == 0 {
 		r.Count("thread_configurations", int64(len(configs)))
 	}
+	budget := 0.0
+	if v := os.Getenv("VERIF_BUDGET_S"); v != "" {
+		fmt.Sscanf(v, "%g", &budget)
+	}
+	// (P) the receiver with a pubsub topic: the watcher goroutine takes part
+	for pi, extra := range [][]string{nil, {"UncacheCid"}, {"Next"}, {"Close"}, {"Direct"}, {"UncacheCid", "Next"}} {
+		sc := pubsubScenario(extra)
+		if r.Replaying() {
+			if strings.HasPrefix(r.ReplayKey(), sc.Name+"|") {
+				(&sched.Explorer{T: t, R: r, Sc: sc, Bound: bound}).Explore()
+			}
+			continue
+		}
+		// the subtrees of each scenario are spread over all shards; each scenario
+		// gets an equal share of 40% of the time budget
+		x := &sched.Explorer{T: t, R: r, Sc: sc, Bound: bound}
+		if budget > 0 {
+			x.Deadline = time.Now().Add(time.Duration(budget * 0.4 / 6 * float64(time.Second)))
+		}
+		if done := x.Explore(); done < bound {
+			r.NotExhaustive(fmt.Sprintf("%s: time share used up after completing preemption bound %d of %d", sc.Name, done, bound))
+		}
+		_ = pi
+	}
 	shard, n := r.Shard()
 	for ci, to := range configs {
 		sc := scenarioFor(to)
@@ -560,4 +735,11 @@ func TestCheck(t *testing.T) {
 		}
 	}
 	t.Logf("violations: %d", r.Violations())
+}
+
+func firstLine(s string) string {
+	if i := strings.IndexByte(s, '\n'); i >= 0 {
+		return s[:i]
+	}
+	return s
 }
